@@ -370,6 +370,73 @@ theorem C14_urls_counterexample : ¬ C14_urls_full := by
   revert this
   decide
 
+/-! ### conversions inside a history: always of the value held *now* -/
+
+/-- a value the xt setter accepts is stored as a valid hash -/
+theorem C14_xtStored_valid (v : Str) (h : xtAccepts v = true) : validHash (xtStored v) = true := by
+  unfold xtAccepts at h
+  unfold xtStored
+  cases hv : validHash v with
+  | true => simpa using hv
+  | false =>
+    rw [hv] at h
+    simp only [Bool.false_or, Bool.and_eq_true] at h
+    simpa using h.2
+
+/-- On one object, in any history of assignments (either setter, accepted or rejected) and
+    conversions (`torrent()`, the tracker request and the comparison inside `get_info()`): every
+    assignment is judged on its own, and every conversion yields — without error — the
+    lower-case 40-digit hexadecimal form of the number denoted by the value that was accepted
+    last, no matter what was converted earlier.  Hypotheses: the object starts with a valid hash
+    (or nothing) and no assigned value contains a character that `re.IGNORECASE` folds (D14f). -/
+theorem C14_convert_history (st : HState) (ops : List UseOp)
+    (hst : ∀ s, st = some s → validHash s = true) (hops : useNoFold ops = true) :
+    runUse st ops = specUse st ops := by
+  induction ops generalizing st with
+  | nil => rfl
+  | cons op ops ih =>
+    cases op with
+    | convert =>
+      simp only [useNoFold] at hops
+      simp only [runUse, specUse, ih st hst hops]
+      cases st with
+      | none => rfl
+      | some s => simp only [C14_torrent_hash s (hst s rfl)]
+    | assign a =>
+      cases a with
+      | xt v =>
+        simp only [useNoFold, Bool.and_eq_true] at hops
+        obtain ⟨h1, h2⟩ := C14_accept_iff_xt_partial st v hops.1
+        simp only [runUse, specUse, specAssign, stepHash]
+        cases hacc : xtAccepts v with
+        | true =>
+          have e1 := h1.mpr hacc
+          have e2 := h2 e1
+          simp only [if_true]
+          rw [e1, e2, ih (some (xtStored v)) (by intro s hs; cases hs; exact C14_xtStored_valid v hacc) hops.2]
+        | false =>
+          have e1 : (setXt st v).1 ≠ none := by
+            intro h; rw [h1.mp h] at hacc; cases hacc
+          have e2 := (C14_reject_keeps st v).1 e1
+          simp only [Bool.false_eq_true, if_false]
+          rw [e2, ih st hst hops.2]
+      | infohash v =>
+        simp only [useNoFold, Bool.and_eq_true] at hops
+        obtain ⟨h1, h2⟩ := C14_accept_iff_infohash_partial st v hops.1
+        simp only [runUse, specUse, specAssign, stepHash]
+        cases hacc : infohashAccepts v with
+        | true =>
+          have e1 := h1.mpr hacc
+          have e2 := h2 e1
+          simp only [if_true]
+          rw [e1, e2, ih (some v) (by intro s hs; cases hs; exact hacc) hops.2]
+        | false =>
+          have e1 : (setInfohash st v).1 ≠ none := by
+            intro h; rw [h1.mp h] at hacc; cases hacc
+          have e2 := (C14_reject_keeps st v).2 e1
+          simp only [Bool.false_eq_true, if_false]
+          rw [e2, ih st hst hops.2]
+
 /-! ### non-vacuity -/
 
 example : validHash ("ABCDEFabcdef0123456789abcdefABCDEF012345".toList) = true := by decide
@@ -377,5 +444,9 @@ example : validHash ("vov2xk5lVOV2XK5LVOV2XK5LVOV2XK5L".toList) = true := by dec
 example : NoFold ("urn:btih:VOV2XK5LVOV2XK5LVOV2XK5LVOV2XK5L".toList) = true ∧
     xtAccepts ("URN:btih:VOV2XK5LVOV2XK5LVOV2XK5LVOV2XK5L".toList) = true := by decide
 example : LowerHex40 ("abababababababababababababababababababab".toList) = true := by decide
+/-- hypotheses of `C14_convert_history` on the history convert → assign another hash → convert -/
+example : validHash ("abababababababababababababababababababab".toList) = true ∧
+    useNoFold [.convert, .assign (.infohash "CDCDCDCDCDCDCDCDCDCDCDCDCDCDCDCDCDCDCDCD".toList),
+               .assign (.xt "junk".toList), .convert] = true := by decide
 
 end Torf.C14
